@@ -19,7 +19,8 @@ EXPLANATION = (
     "overwritten by user code emitted since the template set it, and a comparison / arithmetic result in A "
     "is read before the next instruction overwrites it; (R9) the error edges of the "
     "fetch-execute loop leave the context stack as the failing statement found it (shared with C05.R6)."
-    " (R10) RESUME label cuts the VM stacks back to the depths recorded by the outermost active call (shared with C05.R11).")
+    " (R10) RESUME label cuts the VM stacks back to the depths recorded by the outermost active call (shared with C05.R11)."
+    " (R11 = C03.R4) the call templates stash and write back the same argument list in the prescribed order.")
 NOT_DECIDED = [
     "well-formedness of the instruction list for one given program (that is a run of the generator)",
     "labels whose name is computed at generation time (else-if-N, caseN): depths at those sites "
